@@ -42,7 +42,24 @@ type G struct {
 	parked  bool
 	goid    int64
 	held    atomic.Int32 // exclusive locks taken through simrt.Lock and not yet released
+	locks   []heldLock   // which ones (touched only by the goroutine itself while it holds the baton)
 	Spawned int64        // step at which it was spawned
+}
+
+type heldLock struct {
+	m      any
+	shared bool // RLock
+}
+
+func (g *G) pushLock(m any, shared bool) { g.locks = append(g.locks, heldLock{m, shared}) }
+
+func (g *G) popLock(m any, shared bool) {
+	for i := len(g.locks) - 1; i >= 0; i-- {
+		if g.locks[i].m == m && g.locks[i].shared == shared {
+			g.locks = append(g.locks[:i], g.locks[i+1:]...)
+			return
+		}
+	}
 }
 
 // Crash is an unrecovered panic of a managed goroutine: in the real process it
@@ -81,9 +98,11 @@ type Sim struct {
 	OvertakeBudget time.Duration // total simulated time the scheduler may spend letting timers overtake
 	roots          int
 	Log            func(format string, a ...any)
-	rtBase         uint64 // base of the runtime random source for this run
-	visits         atomic.Int64 // preemption-point visits since a managed goroutine last parked
-	MaxVisits      int64        // bound on the above before the run counts as spinning (0: unbounded)
+	rtBase         uint64                // base of the runtime random source for this run
+	visits         atomic.Int64          // preemption-point visits since a managed goroutine last parked
+	MaxVisits      int64                 // bound on the above before the run counts as spinning (0: unbounded)
+	maps           map[uintptr]*mapState // lock discipline of shared Go maps (MapAccess)
+	MapRaces       []string
 	skew           atomic.Int64
 	holderG        atomic.Pointer[G]
 	holder         atomic.Int64 // goid of the goroutine that was granted the baton and has not parked since
@@ -605,6 +624,7 @@ func Lock(site string, m locker) {
 		s.park(g, site, m)
 	}
 	g.held.Add(1)
+	g.pushLock(m, false)
 }
 
 // Unlock replaces m.Unlock().
@@ -617,6 +637,7 @@ func Unlock(site string, m locker) {
 	s.release(m)
 	if g := s.self(); g != nil {
 		g.held.Add(-1)
+		g.popLock(m, false)
 		s.park(g, site, nil)
 	}
 }
@@ -640,6 +661,7 @@ func RLock(site string, m rlocker) {
 		}
 		s.park(g, site, m)
 	}
+	g.pushLock(m, true)
 }
 
 // RUnlock replaces m.RUnlock().
@@ -651,6 +673,7 @@ func RUnlock(site string, m rlocker) {
 	}
 	s.release(m)
 	if g := s.self(); g != nil {
+		g.popLock(m, true)
 		s.park(g, site, nil)
 	}
 }
@@ -718,4 +741,99 @@ func Exit(code int) {
 	s.mu.Unlock()
 	s.Kill()
 	runtime.Goexit()
+}
+
+// ---- lock discipline of shared Go maps
+//
+// The scheduler runs one goroutine at a time and never switches inside a runtime map operation, so the Go runtime's
+// "concurrent map read and map write" abort - a process crash - cannot happen in a simulated run even when the code
+// allows it. What can be observed is the discipline that prevents it: a map that is accessed under a mutex by one
+// goroutine and touched by another goroutine holding no lock in common (at least one of them writing) is a crash
+// waiting for the right instant. MapAccess implements the lockset algorithm (Eraser) for maps only, and reports a map
+// only if it was lock-protected at some access - maps handed from one goroutine to the next without any lock
+// (ownership transfer through a channel or a go statement) are never reported.
+
+type mapState struct {
+	ref        any // keeps the map alive, so that its address is not reused within the run
+	owner      *G  // only accessor so far (nil once shared)
+	shared     bool
+	written    bool         // written after it became shared
+	cands      map[any]bool // candidate locks: held at every access since the map became shared (exclusive holds only for writes)
+	accessors  map[*G]bool  // goroutines that touched the map since it became shared
+	lockedSite string       // an access made under a mutex since it became shared: the map is meant to be protected
+	reported   bool
+}
+
+// MapAccess is inserted before statements that read or write a map reachable through a field path or a package-level
+// variable. get evaluates the map expression (a nil pointer on the way is the statement's own business).
+func MapAccess(get func() any, write bool, site string) {
+	s := cur.Load()
+	if s == nil || s.killed.Load() {
+		return
+	}
+	g := s.holderG.Load()
+	if g == nil || g.goid != fastGoid() {
+		if g = s.self(); g == nil {
+			return
+		}
+	}
+	var m any
+	func() {
+		defer func() { _ = recover() }()
+		m = get()
+	}()
+	if m == nil {
+		return
+	}
+	rv := reflect.ValueOf(m)
+	if rv.Kind() != reflect.Map || rv.IsNil() {
+		return
+	}
+	key := rv.Pointer()
+	s.mu.Lock()
+	defer s.mu.Unlock()
+	if s.maps == nil {
+		s.maps = map[uintptr]*mapState{}
+	}
+	ms := s.maps[key]
+	if ms == nil {
+		s.maps[key] = &mapState{ref: m, owner: g}
+		return
+	}
+	held := map[any]bool{}
+	for _, l := range g.locks {
+		if !l.shared || !write {
+			held[l.m] = true
+		}
+	}
+	if !ms.shared {
+		if ms.owner == g {
+			return
+		}
+		// second goroutine: from now on the locks held at every access are intersected
+		ms.shared, ms.owner = true, nil
+		ms.cands = held
+		ms.accessors = map[*G]bool{}
+	} else {
+		for c := range ms.cands {
+			if !held[c] {
+				delete(ms.cands, c)
+			}
+		}
+	}
+	ms.accessors[g] = true
+	if write {
+		ms.written = true
+	}
+	if len(held) > 0 {
+		ms.lockedSite = site
+	}
+	if len(ms.cands) == 0 && ms.written && ms.lockedSite != "" && len(ms.accessors) >= 2 && !ms.reported {
+		ms.reported = true
+		kind := "read"
+		if write {
+			kind = "written"
+		}
+		s.MapRaces = append(s.MapRaces, fmt.Sprintf("a map that is accessed under a mutex at %s is %s at %s by goroutine %s (%s); no lock is common to all accesses by the %d goroutines sharing it", ms.lockedSite, kind, site, g.ID, g.Role, len(ms.accessors)))
+	}
 }
